@@ -405,7 +405,17 @@ func (s *state) visitDataRef(node *ast.DataRefNode) {
 	}
 
 	// Nullsafe access makes this complicated.
-	// FOO.BAR?.BAZ => (FOO.BAR == null ? null : FOO.BAR.BAZ)
+	// FOO.BAR?.BAZ => ((FOO.BAR == null) ? null : FOO.BAR.BAZ)
+	// The conditional is parenthesized as a whole, else an operator applied to
+	// the data ref would apply to its first condition only.
+	var nullsafe = false
+	for _, accessNode := range node.Access {
+		nullsafe = nullsafe || isNullSafe(accessNode)
+	}
+	if nullsafe {
+		s.js("(")
+		defer s.js(")")
+	}
 	for _, accessNode := range node.Access {
 		switch node := accessNode.(type) {
 		case *ast.DataRefIndexNode:
@@ -426,6 +436,18 @@ func (s *state) visitDataRef(node *ast.DataRefNode) {
 		}
 	}
 	s.js(expr)
+}
+
+func isNullSafe(accessNode ast.Node) bool {
+	switch node := accessNode.(type) {
+	case *ast.DataRefIndexNode:
+		return node.NullSafe
+	case *ast.DataRefKeyNode:
+		return node.NullSafe
+	case *ast.DataRefExprNode:
+		return node.NullSafe
+	}
+	return false
 }
 
 func (s *state) visitCall(node *ast.CallNode) {
